@@ -164,6 +164,11 @@ class Run:
             self.flags.add('serialised')
         elif k == 'skip':
             return self._finish(op, None)
+        elif k == 'add_junk':
+            junk = [42, 'a string', None, 3.5, [], {}][op[1] % 6]
+            r = call(e.add_child, junk)
+        elif k == 'read':
+            r = call(getattr, e, op[1])
         elif k == 'copy_discard':
             r = call(copy.deepcopy, e)
         elif k == 'deepcopy':
